@@ -42,7 +42,8 @@ Definition pdim_units (us : list uexp) : str -> Q := tdim (udim us).
 Definition vdim (v : value) : str -> Q := pdim_units (v_units v).
 
 (* the hash map does not hold two of celsius / fahrenheit / kelvin (and no key
-   twice): the case in which reduce_hashmap renames without collision *)
+   twice): the only case in which reduce_hashmap was right before fend commit
+   1210896 (see Units/OldReduce.v); no longer a hypothesis of any theorem *)
 Fixpoint nodup_str (l : list str) : bool :=
   match l with
   | [] => true
@@ -100,23 +101,6 @@ Section Eval.
       do r <- v_require_unitless x;
       (* the numeric result of the function is not modelled *)
       Ok (mkval (xv r) [] false true)
-    end.
-
-  (* no addition, subtraction, conversion or unitless-requiring function of
-     the expression meets a hash map that mixes temperature bases *)
-  Fixpoint unmixed_tree (e : uexpr) : bool :=
-    match e with
-    | UNum _ | UName _ => true
-    | UMul a b | UDiv a b => unmixed_tree a && unmixed_tree b
-    | UPow a _ | UNeg a => unmixed_tree a
-    | UAdd a b | USub a b | UConv a b =>
-      unmixed_tree a && unmixed_tree b &&
-      match meval a, meval b with
-      | Ok x, Ok y => unmixed (v_units x) && unmixed (v_units y)
-      | _, _ => true
-      end
-    | UFn a =>
-      unmixed_tree a && match meval a with Ok x => unmixed (v_units x) | _ => true end
     end.
 
   (* the physics typing of expressions: [HasDim e f] = e is dimensionally
